@@ -106,6 +106,12 @@ func genC13Op(rt *rapid.T, nm *hx.NodeMachine, cfg genCfg) hx.NOp {
 		if !ok {
 			return hx.NOp{Op: "sync"}
 		}
+		if nm.N.Opts.MaxBlockSize == 1 && rapid.IntRange(0, 2).Draw(rt, "bulky") == 0 {
+			// a bulky transfer: two or three of them overflow the 0.8 MiB packing limit
+			spec.Prog = nil
+			spec.DescLen = rapid.IntRange(250000, 420000).Draw(rt, "desclen")
+			return hx.NOp{Op: "tx", Tx: &spec}
+		}
 		switch rapid.IntRange(0, 9).Draw(rt, "shape") {
 		case 0, 1, 2: // read-only sharer
 			spec.Prog = []hx.Ins{{Op: "get", K: rapid.SampledFrom(cfg.Keys).Draw(rt, "rk")}}
@@ -200,6 +206,16 @@ func TestC13(t *testing.T) {
 	cfg.MaxSteps = 30
 	cfg.MinSteps = 8
 	cfg.Mix = func(rt *rapid.T, nm *hx.NodeMachine) hx.NOp { return genC13Op(rt, nm, cfg) }
+	cfg.Opts = func(rt *rapid.T, o *hx.NodeOpts) {
+		switch rapid.IntRange(0, 5).Draw(rt, "genesis") {
+		case 0, 1: // decaying award where rounding matters early
+			o.Award = int64(rapid.SampledFrom([]int{5, 7, 13, 1000}).Draw(rt, "award"))
+			o.DecayGap = int64(rapid.IntRange(1, 2).Draw(rt, "decaygap"))
+			o.DecayRatio = rapid.SampledFrom([]float64{0.5, 0.9, 0.75}).Draw(rt, "decayratio")
+		case 2: // smallest block size: bulky transactions overflow the packing limit
+			o.MaxBlockSize = 1
+		}
+	}
 	c.Check(t, "producer-replica", hx.N(350, 2500), func(cs *hx.Case) {
 		runNodeCase(cs, fs, cfg, func(nm *hx.NodeMachine, op hx.NOp, i int) error {
 			if op.Op == "minereal" && nm.LastOutcome != "skipped" {
